@@ -480,11 +480,13 @@ def _sap_broadphase(
       geom1 = sort_index_in[worldid, i]
       geom2 = sort_index_in[worldid, j]
 
-      # find linear index of (geom1, geom2) in upper triangular nxn_pairid
       if geom2 < geom1:
-        idx = upper_tri_index(ngeom, geom2, geom1)
-      else:
-        idx = upper_tri_index(ngeom, geom1, geom2)
+        tmp = geom1
+        geom1 = geom2
+        geom2 = tmp
+
+      # find linear index of (geom1, geom2) in upper triangular nxn_pairid
+      idx = upper_tri_index(ngeom, geom1, geom2)
 
       worldgeomid += nsweep_in
       pairid = nxn_pairid[idx]
